@@ -32,7 +32,7 @@ type HarnessCfg struct {
 }
 
 func defaultCfg() *HarnessCfg {
-	return &HarnessCfg{Unwind: 20000, MaxSteps: 20_000_000, MaxPaths: 200000, ConcretizeCap: 64, SymIndexCap: 64,
+	return &HarnessCfg{Unwind: 20000, MaxSteps: 20_000_000, MaxPaths: 200000, ConcretizeCap: 300, SymIndexCap: 64,
 		MergePathCap: 128, SolverTimeout: 60000, Solver: "z3", MaxSeconds: 1500, MaxViolations: 8}
 }
 
